@@ -37,6 +37,7 @@ type Proxy struct {
 	plan    Plan
 	refuse  bool
 	latency time.Duration
+	hold    chan struct{} // non-nil: accepted connections are not forwarded until Release
 	conns   map[*pconn]struct{}
 
 	Accepted atomic.Int64
@@ -119,6 +120,27 @@ func (p *Proxy) Refuse(on bool) {
 	p.mu.Unlock()
 }
 
+// Hold makes the proxy accept connections without forwarding a byte until Release: the
+// peer's dial succeeds (its connection object exists) while nothing, in particular no
+// fault, can happen to the stream yet.
+func (p *Proxy) Hold() {
+	p.mu.Lock()
+	if p.hold == nil {
+		p.hold = make(chan struct{})
+	}
+	p.mu.Unlock()
+}
+
+// Release ends Hold.
+func (p *Proxy) Release() {
+	p.mu.Lock()
+	if p.hold != nil {
+		close(p.hold)
+		p.hold = nil
+	}
+	p.mu.Unlock()
+}
+
 func (p *Proxy) SetLatency(d time.Duration) {
 	p.mu.Lock()
 	p.latency = d
@@ -133,7 +155,7 @@ func (p *Proxy) acceptLoopOn(ln net.Listener) {
 		}
 		p.Accepted.Add(1)
 		p.mu.Lock()
-		refuse, backend, plan, lat := p.refuse, p.backend, p.plan, p.latency
+		refuse, backend, plan, lat, hold := p.refuse, p.backend, p.plan, p.latency, p.hold
 		if !refuse {
 			p.plan = Plan{} // a plan applies to the next accepted connection only
 		}
@@ -143,6 +165,9 @@ func (p *Proxy) acceptLoopOn(ln net.Listener) {
 			continue
 		}
 		go func() {
+			if hold != nil {
+				<-hold
+			}
 			if lat > 0 {
 				time.Sleep(lat)
 			}
